@@ -287,12 +287,12 @@ impl<'a> Gen<'a> {
         if let Some((_, nn)) = rename { sig.ident = syn::Ident::new(nn, sig.ident.span()); path = format!("{}::{}", tyname.unwrap(), nn); }
         let spec = unit.fns.get(&path).cloned().unwrap_or_default();
         let mut fo = FnOut { path: path.clone(), src: src.to_string(), src_line, contract_only, from_unit: unit.name.clone(), hints: 0, hint_kinds: BTreeMap::new(), loops: 0, return_points: 0, probes: vec![], lowered_sites: 0 };
-        if unit.refcell_mut_fns.contains(&path) { if let Some(syn::FnArg::Receiver(r)) = sig.inputs.first_mut() { *r = parse_quote!(&mut self); } }
+        if unit.refcell_mut_fns.contains(&path) || unit.refcell_mut_unless.iter().any(|(feat, f)| f == &path && !self.features.contains(feat)) { if let Some(syn::FnArg::Receiver(r)) = sig.inputs.first_mut() { *r = parse_quote!(&mut self); } }
         rules::sig_rules(sig, &mut self.rules);
         if contract_only {
             *block = parse_quote!({ unimplemented!() });
         } else {
-            rules::BodyRules { rules: &mut self.rules, unit }.visit_block_mut(block);
+            rules::BodyRules { rules: &mut self.rules, unit, features: self.features, tyname: tyname.map(|s| s.to_string()) }.visit_block_mut(block);
             let vec_params: Vec<String> = sig.inputs.iter().filter_map(|a| match a { syn::FnArg::Typed(pt) => { let ty = pt.ty.to_token_stream().to_string(); if ty.starts_with("Vec <") { Some(pt.pat.to_token_stream().to_string()) } else { None } } _ => None }).collect();
             let mut l = lower::Lower::new(vec_params);
             l.visit_block_mut(block);
@@ -319,7 +319,8 @@ impl<'a> Gen<'a> {
     }
 
     fn take_unit(&mut self, unit: &Unit, contract_only: bool) {
-        for (src, takes) in &unit.sources {
+        for (si, (src, takes)) in unit.sources.iter().enumerate() {
+            if let Some(f) = &unit.source_feature[si] { if !self.features.contains(f) { continue; } }
             let text = std::fs::read_to_string(format!("{}/{}", self.repo, src)).unwrap_or_else(|e| { eprintln!("vx: LOST ANCHOR: cannot read {}: {}", src, e); std::process::exit(2) });
             let mut file = match syn::parse_file(&text) { Ok(f) => f, Err(e) => { eprintln!("vx: cannot parse {}: {}", src, e); std::process::exit(2) } };
             cfgstrip::strip_file(&mut file, self.features);
@@ -331,7 +332,17 @@ impl<'a> Gen<'a> {
                         (Item::Struct(s), Take::Item { kind, name }) if kind == "struct" && s.ident == name => {
                             rules::clean_attrs(&mut s.attrs, &mut self.rules);
                             for f in s.fields.iter_mut() { rules::clean_attrs(&mut f.attrs, &mut self.rules); f.vis = parse_quote!(pub); }
-                            rules::BodyRules { rules: &mut self.rules, unit }.visit_item_struct_mut(s);
+                            rules::BodyRules { rules: &mut self.rules, unit, features: self.features, tyname: None }.visit_item_struct_mut(s);
+                            for (st, feat, fname, ty, _init) in &unit.ghost_fields {
+                                if s.ident == st && (feat == "-" || self.features.contains(feat)) {
+                                    if let syn::Fields::Named(n) = &mut s.fields {
+                                        let id = syn::Ident::new(fname, proc_macro2::Span::call_site());
+                                        let t: syn::Type = syn::parse_str(ty).expect("ghost-field type");
+                                        let f: syn::Field = syn::parse::Parser::parse2(syn::Field::parse_named, quote::quote!(pub #id: #t)).unwrap();
+                                        n.named.push(f);
+                                    }
+                                }
+                            }
                             s.vis = parse_quote!(pub);
                             s.to_tokens(&mut self.items_ts); matched = true;
                         }
@@ -349,7 +360,8 @@ impl<'a> Gen<'a> {
                             f.vis = parse_quote!(pub);
                             f.to_tokens(&mut self.items_ts);
                         }
-                        (Item::Impl(imp), Take::Impl { header, fns, inherent_as }) if &impl_header(imp) == header => {
+                        (Item::Impl(imp), Take::Impl { header, fns, inherent_as, self_as }) if &impl_header(imp) == header => {
+                            if let Some(n) = self_as { let t: syn::Type = syn::parse_str(n).unwrap(); *imp.self_ty = t; }
                             let tyname = imp.self_ty.to_token_stream().to_string().replace(' ', "");
                             let mut kept = vec![];
                             let mut any_fn = false;
@@ -467,7 +479,7 @@ fn main() {
             out.push("    {".to_string());
             if !fo.contract_only {
                 if probes { out.push("let ghost __vp: int = arbitrary();".to_string()); }
-                if !spec.start.trim().is_empty() { out.push(spec.start.trim_end().to_string()); }
+                if !spec.start.trim().is_empty() { out.push(cfg_filter_text(&spec.start, &features).trim_end().to_string()); }
             }
             i += 1; continue;
         }
@@ -480,7 +492,7 @@ fn main() {
                 let hl = out[h].clone();
                 let cut = hl.rfind('{').unwrap();
                 out[h] = hl[..cut].trim_end().to_string();
-                out.push(ls.trim_end().to_string());
+                out.push(cfg_filter_text(ls, &features).trim_end().to_string());
                 out.push("        {".to_string());
                 *loop_specs_used.entry(cur_fn.clone().unwrap()).or_default() += 1;
             }
@@ -497,7 +509,24 @@ fn main() {
             for (n, v) in &named { s = s.replace(n.as_str(), v); }
             for (k, a) in positional.iter().enumerate().rev() { s = s.replace(&format!("${}", k), a); }
             s = s.replace("$ret", "__ret");
+            let s = cfg_filter_text(&s, &features);
             if !s.trim().is_empty() { out.push(format!("// @vx hint {} {}", h.kind, id)); out.push(s.trim_end().to_string()); }
+            if h.kind == "return" {
+                // at-return: every postcondition clause asserted at every return point (names the failing path)
+                if let Some(spec) = cur_fn.as_ref().and_then(|f| gen.specs.get(f)) {
+                    if !spec.no_autopost && !spec.ensures.is_empty() {
+                        let rname = spec.ret.clone().unwrap_or("r".to_string());
+                        out.push(format!("// @vx hint autopost {}", id));
+                        out.push("proof {".to_string());
+                        for c in &spec.ensures {
+                            let t = autopost_text(&c.text, &rname);
+                            out.push(format!("// @props {}", c.props.join(" ")));
+                            out.push(format!("assert({});", t));
+                        }
+                        out.push("}".to_string());
+                    }
+                }
+            }
             i += 1; continue;
         }
         if let Some(rest) = t.strip_prefix("__vx_probe!(") {
@@ -514,7 +543,8 @@ fn main() {
         if fo.contract_only { continue; }
         for n in spec.loops.keys() { if *n >= fo.loops { eprintln!("vx: LOST ANCHOR: loop {} of {} does not exist (function has {} loops)", n, path, fo.loops); std::process::exit(2); } }
     }
-    for (path, _) in &unit.fns { if !gen.specs.contains_key(path) { eprintln!("vx: LOST ANCHOR: contract for {} matches no extracted function", path); std::process::exit(2); } }
+    for (path, fs) in &unit.fns { if !gen.specs.contains_key(path) {
+        if let Some(c) = &fs.cfg { let (neg, f) = match c.strip_prefix('!') { Some(f) => (true, f), None => (false, c.as_str()) }; if features.contains(&f.to_string()) == neg { continue; } } eprintln!("vx: LOST ANCHOR: contract for {} matches no extracted function", path); std::process::exit(2); } }
     // ---------------- assemble
     let mut text = String::new();
     for p in &pre { text.push_str(&std::fs::read_to_string(base.join(p)).unwrap()); text.push('\n'); }
@@ -579,6 +609,61 @@ fn main() {
     ]);
     std::fs::write(format!("{}.json", pos[2]), side.to_string()).unwrap();
     eprintln!("vx: unit {} functions={} (contract-only {}) hints={} probes={} outlined={:?}", unit.name, gen.fns.len(), gen.fns.iter().filter(|f| f.contract_only).count(), gen.fns.iter().map(|f| f.hints).sum::<usize>(), gen.probe_n - 1, gen.rules.outlined);
+}
+
+// evaluate `#[cfg(..)]` lines inside hint templates / loop specs: the line is removed; when the condition is false
+// the statement that follows (a brace-balanced block, or a single line ending in `;` / `,`) is removed too
+fn cfg_filter_text(text: &str, feats: &[String]) -> String {
+    let lines: Vec<&str> = text.lines().collect();
+    let mut out: Vec<String> = vec![];
+    let mut i = 0;
+    while i < lines.len() {
+        let t = lines[i].trim();
+        if t.starts_with("#[cfg(") && t.ends_with(")]") {
+            let inner = &t[2..t.len() - 1];
+            let meta: syn::Meta = syn::parse_str(inner).expect("cfg in template");
+            let ok = match &meta { syn::Meta::List(l) => { let m2: syn::Meta = l.parse_args().expect("cfg arg"); cfgstrip::eval_meta(&m2, feats) } _ => false };
+            i += 1;
+            if !ok {
+                // skip one statement
+                let mut depth = 0i32; let mut started = false;
+                while i < lines.len() {
+                    for c in lines[i].chars() { if c == '{' { depth += 1; started = true; } else if c == '}' { depth -= 1; } }
+                    let lt = lines[i].trim_end();
+                    i += 1;
+                    if started && depth <= 0 { break; }
+                    if !started && (lt.ends_with(';') || lt.ends_with(',')) { break; }
+                }
+            }
+            continue;
+        }
+        out.push(lines[i].to_string());
+        i += 1;
+    }
+    out.join("\n")
+}
+
+// `final(x)` -> `x`, result name -> `__ret` (identifier-boundary aware)
+fn autopost_text(clause: &str, rname: &str) -> String {
+    let mut s = String::new();
+    let b: Vec<char> = clause.chars().collect();
+    let mut i = 0;
+    let is_id = |c: char| c.is_alphanumeric() || c == '_';
+    while i < b.len() {
+        if is_id(b[i]) && (i == 0 || !is_id(b[i - 1])) {
+            let mut j = i; while j < b.len() && is_id(b[j]) { j += 1; }
+            let word: String = b[i..j].iter().collect();
+            if word == "final" && j < b.len() && b[j] == '(' {
+                // final(IDENT) -> IDENT
+                let mut k = j + 1; while k < b.len() && is_id(b[k]) { k += 1; }
+                if k < b.len() && b[k] == ')' { s.push_str(&b[j + 1..k].iter().collect::<String>()); i = k + 1; continue; }
+            }
+            if word == rname && !(i > 0 && b[i - 1] == '.') { s.push_str("__ret"); } else { s.push_str(&word); }
+            i = j; continue;
+        }
+        s.push(b[i]); i += 1;
+    }
+    s
 }
 
 fn unit_props_for(unit: &Unit, _from: &str) -> Vec<String> { unit.props.clone() }
